@@ -2,7 +2,7 @@
 EXTENDS TypeName
 CONSTANTS MaxSegs, MaxDims
 VARIABLES d, desc, names
-Words == {"java", "lang", "language", "javax", "annotation", "invoke", "Foo", "a"}
+Words == {"java", "lang", "language", "javax", "annotation", "invoke", "Foo", "a", "L", "URL"}      \* (names beginning / ending with the letters of the descriptor syntax)
 Init == /\ \/ d \in [dims : 0..MaxDims, prim : PrimLetters \ {"V"}, segs : {<<>>}]
            \/ d = [dims |-> 0, prim |-> "V", segs |-> <<>>]
            \/ \E k \in 1..MaxSegs : d \in [dims : 0..MaxDims, prim : {""}, segs : [1..k -> Words]]
